@@ -56,6 +56,30 @@ def build(kind, seed):
                          "sh2": {"type": "skewed-gaussian", "amplitude": "a2", "location": "l2", "width": "w2", "skewness": "sk"}}
         spec["dataset"]["d1"] = {"megacomplex": ["m1"], "global_megacomplex": ["sp"], "spectral_axis_scale": 1.01}
         pl += [["a1", 3.0, {"vary": False}], ["l1", 480.0], ["w1", 60.0], ["a2", 2.0, {"vary": False}], ["l2", 620.0], ["w2", 50.0], ["sk", 0.2]]
+    elif kind == "clp_guide_scaled":
+        # a guide spectrum for one clp: its amplitude is arbitrary, so the guide's megacomplex carries a scale
+        t = np.linspace(0.0, 30.0, 60)
+        spec["megacomplex"]["m1"] = {"type": "decay-parallel", "compartments": ["s1", "s2"], "rates": ["k1", "k2"]}
+        spec["megacomplex"]["gd"] = {"type": "clp-guide", "dimension": "time", "target": "s1"}
+        spec["dataset_groups"] = {"default": {"residual_function": "variable_projection", "link_clp": True}}
+        spec["dataset"] = {"d1": {"megacomplex": ["m1"]}, "d2": {"megacomplex": ["gd"], "megacomplex_scale": ["gsc"]}}
+        pl += [["gsc", 0.7, {"vary": False}]]
+        model = all_builtin_model_class()(**spec)
+        data = {"d1": xr.DataArray(rng.standard_normal((t.size, g.size)), coords=[("time", t), ("spectral", g)]).to_dataset(name="data"),
+                "d2": xr.DataArray(rng.standard_normal((1, g.size)), coords=[("time", [0.0]), ("spectral", g)]).to_dataset(name="data")}
+        return Scheme(model=model, parameters=Parameters.from_list(pl), data=data, maximum_number_function_evaluations=2, add_svd=False)
+    elif kind == "all_scaled":
+        # every index-independent builtin megacomplex type in one dataset, each with its own scale, plus a dataset scale
+        t = np.linspace(-1.0, 30.0, 80)
+        spec["megacomplex"]["m1"] = {"type": "decay-parallel", "compartments": ["s1", "s2"], "rates": ["k1", "k2"]}
+        spec["megacomplex"]["m2"] = {"type": "baseline", "dimension": "time"}
+        spec["megacomplex"]["m3"] = {"type": "damped-oscillation", "labels": ["o1"], "frequencies": ["f1"], "rates": ["k3"]}
+        spec["megacomplex"]["m4"] = {"type": "coherent-artifact", "order": 2}
+        spec["megacomplex"]["m5"] = {"type": "decay-sequential", "compartments": ["q1", "q2"], "rates": ["k4", "k5"]}
+        spec["irf"] = {"i1": {"type": "gaussian", "center": "c", "width": "w"}}
+        spec["dataset"]["d1"] = {"megacomplex": ["m1", "m2", "m3", "m4", "m5"], "megacomplex_scale": ["ms1", "ms2", "ms3", "ms4", "ms5"], "scale": "dsc", "irf": "i1"}
+        pl += [["f1", 2.0], ["k4", 1.7], ["k5", 0.02], ["c", 0.3], ["w", 0.15], ["dsc", 1.4, {"vary": False}],
+               ["ms1", 1.0, {"vary": False}], ["ms2", 0.6], ["ms3", 1.9], ["ms4", 0.3], ["ms5", 2.5]]
     elif kind == "multi_group":
         # several dataset groups: the objective is the concatenation of the group penalties in a fixed order
         t = np.linspace(0.0, 30.0, 150)
